@@ -186,6 +186,20 @@ CHECKS["C18"] = dict(
          "current-flow kernels are float32: tolerance 2.5e-3; series/parallel laws are instances of ERDef on paths and cycles.",
     ref="6/C18")
 
+CHECKS["C17"] = dict(
+    technique="TLA+ nondeterministic rewiring models (RewireCore, RewireSM, CrossSM: the random choice is an explicit action parameter) model-checked by TLC + every behaviour replayed on the real kernels with a scripted random source + TLC trace validation (Val_C17)",
+    text="RewireSM / CrossSM specify the geographical rewiring models I-III and the cross-link rewiring as state machines whose random "
+         "draws are action parameters; TLC explores every sequence of accepted and rejected draws on lattice set-ups and checks Simple, "
+         "degree sequence, edge-list consistency, link-length classes within the tolerance, degree pairs (model III), cross degrees in "
+         "every state.  Every behaviour ending in an accepted draw is replayed on randomly_rewire_geomodel_I/II/III and "
+         "RandomlyRewireCrossLinks with numpy's random source scripted to exactly these draws; TLC replays the draws through RewireCore and "
+         "requires the same final network, the invariants, untouched internal blocks and exactly the scripted draws consumed.  Generators "
+         "backed by igraph's RNG (ErdosRenyi(n_links), BarabasiAlbert, Configuration, WattsStrogatz, randomly_rewire, RandomlySetCross"
+         "Links(_sparse), set_random_links_by_distance) run over seeds and TLC checks the before/after relation.",
+    note="igraph-internal randomness cannot be scripted: only the stated relation is checked there, per seed.  Integer lattice "
+         "coordinates (exact float32 distances).",
+    ref="6/C17")
+
 NOT_APPLICABLE = {
     "C20": "memory safety of compiled kernels is a property of concrete addresses, not of abstract state a TLA+ "
            "specification maintains; nothing binds a PlusCal transcription of index arithmetic to the compiled code "
